@@ -187,8 +187,47 @@ func rndPolyQP(g *gen, p rlwe.Parameters, levelQ, levelP int) ringqp.Poly {
 	return pol
 }
 
+// fullScale returns scales whose 128-bit mantissa is fully used (none of them is representable with 64 bits, so
+// a codec that goes through a float64, a default-precision big.Float or a shortened decimal text loses them),
+// with two-digit decimal exponents. They are what CKKS produces in ordinary use: after a multiplication and a
+// rescaling the scale of a ciphertext is S*S'/q for a prime q.
+var fullScaleLabels = []string{"2^90-over-q", "2^45-squared-over-q-by-Mul-Div", "one-third", "2^127+1", "1+2^-127", "2^128-1", "2^-200-times-(2^128-3)"}
+
+func fullScale(k int) rlwe.Scale {
+	one := func(sh uint) *big.Int { return new(big.Int).Lsh(big.NewInt(1), sh) }
+	switch k {
+	case 0: // 2^90 / q for a real 30-bit NTT prime
+		return rlwe.NewScale(one(90)).Div(rlwe.NewScale(uni.Primes(4, 30, 5)[1]))
+	case 1: // (2^45)^2 / q for a real 45-bit NTT prime, by the library's own arithmetic
+		s := rlwe.NewScale(one(45))
+		return s.Mul(s).Div(rlwe.NewScale(uni.Primes(5, 45, 1)[0]))
+	case 2:
+		return rlwe.NewScale(1).Div(rlwe.NewScale(3))
+	case 3: // highest and lowest mantissa bit only, an integer
+		return rlwe.NewScale(new(big.Int).Add(one(127), big.NewInt(1)))
+	case 4: // the same mantissa below the binary point
+		return rlwe.NewScale(new(big.Float).SetPrec(128).SetMantExp(new(big.Float).SetPrec(128).SetInt(new(big.Int).Add(one(127), big.NewInt(1))), -127))
+	case 5: // all mantissa bits set
+		return rlwe.NewScale(new(big.Int).Sub(one(128), big.NewInt(1)))
+	default: // small magnitude (negative two-digit decimal exponent), low bits 01
+		return rlwe.NewScale(new(big.Float).SetPrec(128).SetMantExp(new(big.Float).SetPrec(128).SetInt(new(big.Int).Sub(one(128), big.NewInt(3))), -328))
+	}
+}
+
 func metaData(k int) rlwe.MetaData {
 	switch k {
+	case 5: // scale of a CKKS ciphertext after multiplication and rescaling: 128 significant bits
+		return rlwe.MetaData{
+			PlaintextMetaData:  rlwe.PlaintextMetaData{Scale: fullScale(0), LogDimensions: ring.Dimensions{Rows: 0, Cols: 3}, IsBatched: true},
+			CiphertextMetaData: rlwe.CiphertextMetaData{IsNTT: true}}
+	case 6:
+		return rlwe.MetaData{
+			PlaintextMetaData:  rlwe.PlaintextMetaData{Scale: fullScale(3), LogDimensions: ring.Dimensions{Rows: 1, Cols: 2}, IsBitReversed: true},
+			CiphertextMetaData: rlwe.CiphertextMetaData{IsNTT: true, IsMontgomery: true}}
+	case 7:
+		return rlwe.MetaData{
+			PlaintextMetaData:  rlwe.PlaintextMetaData{Scale: fullScale(2), LogDimensions: ring.Dimensions{Rows: 0, Cols: 2}, IsBatched: true, IsBitReversed: true},
+			CiphertextMetaData: rlwe.CiphertextMetaData{IsMontgomery: true}}
 	case 0:
 		return rlwe.MetaData{}
 	case 1:
@@ -376,6 +415,14 @@ func catalogue() []*entry {
 			V("3-mod-65537", func(w *world, g *gen) any { s := rlwe.NewScaleModT(3, 65537); return &s }),
 			V("1.2345e-5", func(w *world, g *gen) any { s := rlwe.NewScale(1.2345e-5); return &s }),
 			V("2^400", func(w *world, g *gen) any { s := rlwe.NewScale(new(big.Int).Lsh(big.NewInt(1), 400)); return &s }),
+			// full 128-bit mantissas
+			V("full:"+fullScaleLabels[0], func(w *world, g *gen) any { s := fullScale(0); return &s }),
+			V("full:"+fullScaleLabels[1], func(w *world, g *gen) any { s := fullScale(1); return &s }),
+			V("full:"+fullScaleLabels[2], func(w *world, g *gen) any { s := fullScale(2); return &s }),
+			V("full:"+fullScaleLabels[3], func(w *world, g *gen) any { s := fullScale(3); return &s }),
+			V("full:"+fullScaleLabels[4], func(w *world, g *gen) any { s := fullScale(4); return &s }),
+			V("full:"+fullScaleLabels[5], func(w *world, g *gen) any { s := fullScale(5); return &s }),
+			V("full:"+fullScaleLabels[6], func(w *world, g *gen) any { s := fullScale(6); return &s }),
 		}},
 		{name: "rlwe.CiphertextMetaData", zero: Z[rlwe.CiphertextMetaData](), vals: []value{
 			V("FF", func(w *world, g *gen) any { return &rlwe.CiphertextMetaData{} }),
@@ -389,6 +436,9 @@ func catalogue() []*entry {
 			V("md2-modT", func(w *world, g *gen) any { m := metaData(2).PlaintextMetaData; return &m }),
 			V("md3", func(w *world, g *gen) any { m := metaData(3).PlaintextMetaData; return &m }),
 			V("md4-scale-2^400", func(w *world, g *gen) any { m := metaData(4).PlaintextMetaData; return &m }),
+			V("md5-scale-2^90-over-q", func(w *world, g *gen) any { m := metaData(5).PlaintextMetaData; return &m }),
+			V("md6-scale-2^127+1", func(w *world, g *gen) any { m := metaData(6).PlaintextMetaData; return &m }),
+			V("md7-scale-one-third", func(w *world, g *gen) any { m := metaData(7).PlaintextMetaData; return &m }),
 		}},
 		{name: "rlwe.MetaData", zero: Z[rlwe.MetaData](), vals: []value{
 			V("md0", func(w *world, g *gen) any { m := metaData(0); return &m }),
@@ -396,6 +446,9 @@ func catalogue() []*entry {
 			V("md2-modT", func(w *world, g *gen) any { m := metaData(2); return &m }),
 			V("md3", func(w *world, g *gen) any { m := metaData(3); return &m }),
 			V("md4-scale-2^400", func(w *world, g *gen) any { m := metaData(4); return &m }),
+			V("md5-scale-2^90-over-q", func(w *world, g *gen) any { m := metaData(5); return &m }),
+			V("md6-scale-2^127+1", func(w *world, g *gen) any { m := metaData(6); return &m }),
+			V("md7-scale-one-third", func(w *world, g *gen) any { m := metaData(7); return &m }),
 		}},
 		// ---- plaintexts / ciphertexts
 		{name: "rlwe.Plaintext", zero: Z[rlwe.Plaintext](), vals: []value{
@@ -423,6 +476,12 @@ func catalogue() []*entry {
 				*pt.MetaData = metaData(2)
 				return pt
 			}),
+			V("A-level1-md5-full-scale", func(w *world, g *gen) any {
+				pt := rlwe.NewPlaintext(w.pA, 1)
+				g.fill(pt)
+				*pt.MetaData = metaData(5)
+				return pt
+			}),
 			V("derived:Plaintext-of-ciphertext", func(w *world, g *gen) any { return rndCt(g, w.pA, 0, 1, 1).Plaintext() }),
 			V("derived:CopyNew", func(w *world, g *gen) any {
 				pt := rlwe.NewPlaintext(w.pA, 2)
@@ -446,7 +505,19 @@ func catalogue() []*entry {
 			V("A-deg1-level0-nil-metadata", func(w *world, g *gen) any { return rndCt(g, w.pA, 1, 0, -1) }),
 			V("B-deg1-level1-md3-N32", func(w *world, g *gen) any { return rndCt(g, w.pB, 1, 1, 3) }),
 			V("D-deg1-level0-md1-N1024", func(w *world, g *gen) any { return rndCt(g, w.pD, 1, 0, 1) }),
+			V("A-deg1-level1-md5-full-scale", func(w *world, g *gen) any { return rndCt(g, w.pA, 1, 1, 5) }),
 			// derived from other ciphertexts by the library's own operations
+			V("derived:ckks-mul-rescale", func(w *world, g *gen) any {
+				p := w.getCkksA()
+				ct := ckks.NewCiphertext(p, 1, 2)
+				g.fill(ct)
+				eval := ckks.NewEvaluator(p, nil)
+				sq := must(eval.MulNew(ct, ct)) // degree 2, scale 2^40
+				if err := eval.Rescale(sq, sq); err != nil {
+					panic(err)
+				} // scale 2^40/q2: 128 significant bits
+				return sq
+			}),
 			V("derived:resized-down", func(w *world, g *gen) any { ct := rndCt(g, w.pA, 2, 2, 1); ct.Resize(1, 1); return ct }),
 			V("derived:resized-up", func(w *world, g *gen) any { ct := rndCt(g, w.pA, 0, 0, 2); ct.Resize(2, 2); return ct }),
 			V("derived:CopyNew", func(w *world, g *gen) any { return rndCt(g, w.pA, 1, 1, 3).CopyNew() }),
@@ -462,6 +533,12 @@ func catalogue() []*entry {
 				e := rlwe.NewElementExtended(w.pA, 1, 2, 1)
 				g.fill(e)
 				*e.MetaData = metaData(1)
+				return e
+			}),
+			V("A-deg1-1-0-md7-full-scale", func(w *world, g *gen) any {
+				e := rlwe.NewElementExtended(w.pA, 1, 1, 0)
+				g.fill(e)
+				*e.MetaData = metaData(7)
 				return e
 			}),
 			V("A-deg0-0-0-nil-metadata", func(w *world, g *gen) any {
@@ -597,6 +674,10 @@ func catalogue() []*entry {
 				m := structs.Map[int, rlwe.Ciphertext]{7: rndCt(g, w.pA, 1, 0, 2)}
 				return &m
 			}),
+			V("3,5-full-scales", func(w *world, g *gen) any {
+				m := structs.Map[int, rlwe.Ciphertext]{3: rndCt(g, w.pA, 1, 0, 5), 5: rndCt(g, w.pA, 0, 1, 7)}
+				return &m
+			}),
 		}},
 		{name: "polynomial.PowerBasis", zero: Z[polynomial.PowerBasis](), vals: []value{
 			V("chebyshev-1", func(w *world, g *gen) any {
@@ -607,6 +688,11 @@ func catalogue() []*entry {
 				p := polynomial.NewPowerBasis(rndCt(g, w.pA, 1, 2, 1), bignum.Monomial)
 				p.Value[2] = rndCt(g, w.pA, 1, 1, 1)
 				p.Value[4] = rndCt(g, w.pA, 1, 0, 1)
+				return &p
+			}),
+			V("chebyshev-1,2-full-scales", func(w *world, g *gen) any { // what a polynomial evaluation leaves behind: x, then x^2 rescaled
+				p := polynomial.NewPowerBasis(rndCt(g, w.pA, 1, 1, 1), bignum.Chebyshev)
+				p.Value[2] = rndCt(g, w.pA, 1, 0, 5)
 				return &p
 			}),
 			V("monomial-3", func(w *world, g *gen) any {
@@ -813,6 +899,13 @@ func catalogue() []*entry {
 				s := multiparty.RefreshShare{EncToShareShare: ks.AllocateShare(0), ShareToEncShare: ks.AllocateShare(2)}
 				g.fill(&s)
 				s.MetaData = metaData(2)
+				return &s
+			}),
+			V("A-1-1-md5-full-scale", func(w *world, g *gen) any {
+				ks := must(multiparty.NewKeySwitchProtocol(w.pA, ring.DiscreteGaussian{Sigma: 3.2, Bound: 19}))
+				s := multiparty.RefreshShare{EncToShareShare: ks.AllocateShare(1), ShareToEncShare: ks.AllocateShare(1)}
+				g.fill(&s)
+				s.MetaData = metaData(5)
 				return &s
 			}),
 			V("A-1-0-md0", func(w *world, g *gen) any {
